@@ -42,7 +42,7 @@ ALLOWED_FUNCS = set(dir(math)) | {'float', 'max', 'min', 'sum', 'pow', 'abs', 'r
 ALIAS_RE = re.compile(r'(?<![A-Za-z0-9_])_\d+__[A-Za-z_0-9]*')
 
 PLACES = ['other_var', 'own_var', 'cashflow_eqn', 'product_term', 'cashflow_product', 'exogenous', 'global',
-          'asset_weight', 'ic_target', 'late_setrhs', 'global_two_names', 'global_name_clash', 'edit_returned_lists']
+          'asset_weight', 'ic_target', 'late_setrhs', 'global_two_names', 'global_name_clash', 'edit_returned_lists', 'second_request']
 POINTS = ['early', 'late', 'postcodes']
 VARS = ['Q', 'F', 'INC']
 SRCS = ['HH', 'GOV']
@@ -152,6 +152,11 @@ def check_model(m, case, allow_postcodes_stale=False):
         lval = dict(val)
         for loc2 in s.EquationBlock.GetEquationList():
             lval[loc2] = val.get(full + '__' + loc2, Fraction(1))
+        # names handed out during construction stand for the variable of the sector they were requested from (harness record)
+        for handle, (hs, hv) in getattr(m, '_verif_intent', {}).items():
+            hfull = (hs.Parent.Code + '_' + hs.Code) if multi else hs.Code
+            if hfull + '__' + hv in val:
+                lval[handle] = val[hfull + '__' + hv]
         try:
             a = exact.eval_at(lrhs, lval)
         except (exact.Unsupported, KeyError, ZeroDivisionError, exact.NonAffine):
@@ -204,8 +209,18 @@ def build_history(config, point, var, src, places):
     S = {}
     name = [None]
 
+    intent = {}          # name handed out -> (sector object, local variable) it was requested for
+    clash = []
+
+    def record(handle, sec, v):
+        if handle in intent and (intent[handle][0] is not sec or intent[handle][1] != v):
+            clash.append((handle, intent[handle][0].Code, intent[handle][1], sec.Code, v))
+            return
+        intent[handle] = (sec, v)
+
     def request():
         name[0] = S[src].GetVariableName(var)
+        record(name[0], S[src], var)
 
     def declare(code):
         if code == 'GOV':
@@ -282,6 +297,7 @@ def build_history(config, point, var, src, places):
         elif p == 'global_two_names':
             # two different names (of two sectors) in one model-level equation and in one exogenous string
             nm2 = other.GetVariableName('F')
+            record(nm2, other, 'F')
             m.AddGlobalEquation('TOTAL2', 'sum over two sectors', nm + ' + ' + nm2 + ' + ' + nm)
             other.AddVariable('XG2', 'exogenous with two embedded names', '0.')
             other.SetExogenous('XG2', '[' + nm + ', ' + nm2 + ', 1., 1., 1., 1.]')
@@ -303,12 +319,20 @@ def build_history(config, point, var, src, places):
             S['HH'].GenerateAssetWeighting({'DEP': '0.2 + 0.*' + nm}, 'MON')
         elif p == 'ic_target':
             own.AddInitialCondition(var, 3.0)
+        elif p == 'second_request':
+            # the same variable name requested from a second sector (the one declared right after HH): two different handles
+            v2 = var if var in ('F', 'INC') else 'F'
+            nm3 = S['BUS'].GetVariableName(v2)
+            record(nm3, S['BUS'], v2)
+            S['LAB'].AddVariable('W4', 'uses the name handed out by BUS', '3*' + nm3 + ' + ' + nm)
         elif p == 'late_setrhs':
             other.AddVariable('W3', 'set later', '')
             other.SetEquationRightHandSide('W3', nm + '-1')
         else:
             raise ValueError(p)
     m.MaxTime = 1
+    m._verif_intent = intent
+    m._verif_clash = clash
     was_alias = bool(ALIAS_RE.match(nm))
     return m, was_alias, nm
 
@@ -320,6 +344,10 @@ def run_history(config, point, var, src, places):
     except Exception as e:
         return 'build-error:%s' % type(e).__name__, False, [core.violation(
             'construction-raises:%s' % type(e).__name__, 'history raised %r' % (e,), case)]
+    if m._verif_clash:
+        h, c1, v1, c2, v2 = m._verif_clash[0]
+        return 'handle-clash', was_alias, [core.violation('same-name-handed-out-for-two-variables',
+                                                          'GetVariableName returned %r both for %s.%s and for %s.%s' % (h, c1, v1, c2, v2), case)]
     err = None
     try:
         m.main()
